@@ -7,6 +7,36 @@ GUARD = "isographlabs_isograph_verif"
 
 # id -> (category, technique, level text, level note, design_ref)
 CHECKS = {
+ "C05": ("exploration", "model-based property testing (proptest) + shuttle random/PCT schedule sampling over feature-gated sync shims + Miri many-seeds",
+         "Reference model of every intern table (id equality <=> value equality, lookup round trip, dense stable indices, order = text order, WithIntern serde round trips through bincode and serde_json) on 20k sequential + 4k serde cases; 5.4k shuttle executions (random + PCT depth 2/3) of 2-3 threads interning overlapping new values through the shims; 6 Miri seeds on real-thread programs (quick). Sampling of schedules, not all interleavings.",
+         "shuttle explores sequentially consistent interleavings only; Miri adds randomized weak-memory executions on a few programs (run with -Zmiri-tree-borrows); OnceCell shard initialisation is not shimmed (covered by Miri programs only).", "5/C05"),
+ "C06": ("exploration", "shuttle random/PCT schedule sampling over feature-gated sync shims + Miri many-seeds",
+         "Adder/reader programs over a fresh AtomicArena with pre-fills at the bucket boundaries (0/128/384): refs pairwise distinct, get() reads back the added element at once / after publication / after join, len() monotone and exact at the end, every element dropped exactly once; 7k shuttle executions + 6 Miri seeds quick.",
+         "SC interleavings only under shuttle; 2-3 adders x <=3 additions; Miri with -Zmiri-tree-borrows (Stacked Borrows rejects AtomicArena::drop's pointer narrowing, which no listed property speaks about).", "5/C06"),
+ "C08": ("exploration", "property-based testing over generated projects (tape-driven model-first generator, proptest shrinking), each compiled by a fresh process of the real CLI; exit status / signal oracle",
+         "Generated valid projects of five feature tiers, single-fault mutants, raw token damage of schema / extension / sources and cyclic client fields are compiled by fresh isograph_cli processes; the process must exit 0 (iso.ts written) or 1 (diagnostics), never panic, abort or be killed by a signal. 1k projects quick, 80k thorough; recorded crash families are tolerated by root-cause signature only.",
+         "The watch-mode clause is covered by C20's driver (panics there carry a C08-style signature); isograph_cli is the debug build of the working tree; a process exceeding 120 s is inconclusive.", "5/C08"),
+ "C12": ("exploration", "property-based testing + differential testing against the repository's TypeScript runtime executed under node 22",
+         "Unit level: generated selections and pairs through normalization_alias, the compiler's emitted argument text (hook) and the runtime's getNetworkResponseKey: injectivity on pairs, legality of every key as a GraphQL name, compiler key == runtime key; every writable selection is also round-tripped through the real iso parser. 62.5k cases quick, 1.6M thorough.",
+         "Needs node 22 (exit 2 when absent). Astral characters / float / enum values are API-level inputs the iso lexer cannot write. Six recorded root causes are tolerated one signature at a time.", "5/C12"),
+ "C13": ("exploration", "property-based testing over generated projects compiled in-process; every artifact parsed with swc's TypeScript parser / serde_json, imports resolved against the artifact set",
+         "Accepted generated programs (hostile descriptions and strings, the whole option space) and the four checked-in projects: every .ts artifact parses as a TypeScript module without any (recovered) error, every .json parses, every relative import inside the artifact directory names a generated file, imports leaving it name an existing source file. 4k programs quick, 200k thorough.",
+         "swc_ecma_parser 3 is the reference for 'parses as TypeScript'; programs the compiler rejects or crashes on are skipped (counted).", "5/C13"),
+ "C14": ("exploration", "metamorphic property-based testing: same files, fresh processes (fresh hash seeds), opposite creation order + decoy files; byte equality of artifact trees and diagnostics",
+         "Generated valid projects, multi-fault invalid projects (several diagnostics) and the four checked-in projects are each compiled three times by fresh CLI processes in two layouts; artifact trees and normalised stderr must be identical. 160 generated projects quick, 12k thorough.",
+         "tmpfs enumeration order depends on creation order (that is what varies discovery order); timing phrases and the scratch directory name are removed from stderr; cases on which the compiler crashes are skipped (C08).", "5/C14"),
+ "C16": ("exploration", "property-based testing with single-fault mutation operators decided by the project model; accept/reject oracle on in-process compiles",
+         "Valid programs of the core/client-graph tiers must compile without diagnostics; mutants violating exactly one rule of the statement (10 operators) at a model-chosen location must be rejected with a diagnostic. 6k programs quick, 300k thorough.",
+         "The 'generated language subset' is what G-PROJECT emits in those tiers (written into the evidence); list-typed variables are excluded by construction (recorded finding); compiler crashes are C08's business.", "5/C16"),
+ "C24": ("exploration", "property-based testing over generated projects; hand model of the TypeScript conditional/template-literal type of iso.ts, verified against the file's shape on every run",
+         "Accepted generated programs whose type/field names are prefixes of one another, with literal headers re-laid-out (whitespace kinds, spaces around the dot, leading whitespace), and the four checked-in projects: the first overload whose pattern is a prefix of the whitespace-stripped literal must exist and belong to the same declaration. 4k programs quick.",
+         "No TypeScript compiler exists offline: tsc's overload resolution is modelled by hand (assumption text in the evidence); if iso.ts stops having the modelled shape the check is inconclusive, not failing.", "5/C24"),
+ "C29": ("exploration", "differential property-based testing (Appendix-B grammar generators + token-level mutants) against the independent refgql reference; libFuzzer campaign with the same oracle in the thorough tier",
+         "Generated executable and type-system documents (June 2018 grammar, SourceCharacters only, ignored tokens inserted freely) and four token-level mutants each: relay accepts iff the reference accepts; accepted trees equal; schema Display -> re-parse equal. 40k texts quick, 1.2M + 3M fuzz executions thorough.",
+         "Descriptions relay's tree has no slot for are not compared; inputs whose acceptance depends on the post-2018 number look-ahead restriction are not judged; surrogate escapes excluded; listed findings tolerated by root-cause signature. refgql is hand-written from the spec and self-checked against its generator and relay's fixtures.", "5/C29"),
+ "C30": ("exploration", "differential property-based testing against the independent refgql reference inside the supported SDL subset; libFuzzer campaign in the thorough tier",
+         "Generated SDL restricted to the subset read off parse_schema.rs (+ extend type) and mutants: accept iff the reference accepts; types, fields, arguments, annotations, defaults, directives and description values equal the reference's. 40k texts quick.",
+         "Later-edition syntax the parser supports on purpose is not judged; listed findings tolerated by signature.", "5/C30"),
  "C31": ("exploration", "property-based testing (proptest) against an independent caret-placement oracle",
          "Generated texts x spans on character boundaries are rendered and compared with an independent computation of the start row and of the exact character columns that must carry a caret; 40k cases quick, 2M thorough. Sampling, not proof.",
          "Spans are assumed to lie on character boundaries; the column number is not checked (the statement is about the row and the carets).", "5/C31"),
@@ -14,7 +44,8 @@ CHECKS = {
          "Generated contents with one or more tokens, bare tokens and look-alike signatures are signed; the result must verify, and every single-character substitution/insertion/deletion outside the signature digits (all positions for short files) must not verify.",
          "MD5 collisions are out of scope; nothing is assumed about how the signature is computed or where it is placed.", "5/C33"),
 }
-NOT_APPLICABLE = []
+ALL_IDS = ["C%02d" % i for i in range(1, 34)]
+NOT_APPLICABLE = [{"property_id": i, "reason": "check under construction in this round (see DESIGN.md section 5); not claimed until it is silent on the unchanged tree"} for i in ALL_IDS if i not in CHECKS]
 
 def main():
     hooks_commits = []
